@@ -1,5 +1,6 @@
 import ScionTime.Gen.SkelC06
 import ScionTime.Model.Skel.Server
+import ScionTime.Model.Skel.ServerStart
 
 /-!
   Control-skeleton pins, group C06 (notes/SKEL.md): the control structure and the text of every
@@ -16,11 +17,17 @@ namespace ScionTime
 #eval Model.Skel.check "Server.updateTXTimestamp" Gen.Skel.Server.updateTXTimestamp Model.Skel.Server.updateTXTimestamp
 #eval Model.Skel.check "Server.runIPServer" Gen.Skel.Server.runIPServer Model.Skel.Server.runIPServer
 #eval Model.Skel.check "Server.runSCIONServer" Gen.Skel.Server.runSCIONServer Model.Skel.Server.runSCIONServer
+#eval Model.Skel.check "ServerStart.StartIPServer" Gen.Skel.ServerStart.StartIPServer Model.Skel.ServerStart.StartIPServer
+#eval Model.Skel.check "ServerStart.StartSCIONServer" Gen.Skel.ServerStart.StartSCIONServer Model.Skel.ServerStart.StartSCIONServer
+#eval Model.Skel.check "ServerStart.StartSCIONDispatcher" Gen.Skel.ServerStart.StartSCIONDispatcher Model.Skel.ServerStart.StartSCIONDispatcher
 
 /-! the pins -/
 theorem C06_skel_Server_handleRequest : Gen.Skel.Server.handleRequest = Model.Skel.Server.handleRequest := rfl
 theorem C06_skel_Server_updateTXTimestamp : Gen.Skel.Server.updateTXTimestamp = Model.Skel.Server.updateTXTimestamp := rfl
 theorem C06_skel_Server_runIPServer : Gen.Skel.Server.runIPServer = Model.Skel.Server.runIPServer := rfl
 theorem C06_skel_Server_runSCIONServer : Gen.Skel.Server.runSCIONServer = Model.Skel.Server.runSCIONServer := rfl
+theorem C06_skel_ServerStart_StartIPServer : Gen.Skel.ServerStart.StartIPServer = Model.Skel.ServerStart.StartIPServer := rfl
+theorem C06_skel_ServerStart_StartSCIONServer : Gen.Skel.ServerStart.StartSCIONServer = Model.Skel.ServerStart.StartSCIONServer := rfl
+theorem C06_skel_ServerStart_StartSCIONDispatcher : Gen.Skel.ServerStart.StartSCIONDispatcher = Model.Skel.ServerStart.StartSCIONDispatcher := rfl
 
 end ScionTime
